@@ -184,8 +184,11 @@ class OpRunner(object):
         src = op.get('src', 'bytesio')
         if src == 'bytesio':
             data = expand(op['content'])
-            rec['src_bytes'] = data
-            return io.BytesIO(data)
+            pos = min(int(op.get('src_pos', 0)), len(data))
+            rec['src_bytes'] = data[pos:]          # a stream is pushed from its current position
+            bio = io.BytesIO(data)
+            bio.seek(pos)
+            return bio
         base = os.path.join(tmpdir(), 'push')
         shutil.rmtree(base, True)
         os.makedirs(base)
@@ -287,6 +290,11 @@ class OpRunner(object):
             return d.available
         if k == 'locks':
             return _lock_states(d)
+        if k == 'usb_heal':
+            b = self.run.usb
+            b.plan.clear()
+            b.spec['named_faults'] = []
+            return None
         if k == 'maxchunk':
             return d.max_chunk_size
         if k in ('shell', 'exec_out'):
